@@ -451,11 +451,14 @@ def _update_axis(
     tail = jnp.exp(jax.scipy.special.logsumexp(fitted_vals * 2)) / (d - k)
     undeflated = jnp.square(jnp.maximum(top_eigs, 0.0))
   else:
-    tail = axis_state.tail * decay + cutoff**2
+    # `decay` above is the square root used to scale the sketch factor; the
+    # escaped mass is a covariance eigenvalue and decays by the full factor.
+    tail_decay = options.second_moment_decay
+    tail = axis_state.tail * tail_decay + cutoff**2
     # Avoid numerical error from the sqrt computation and from subtracting
     # and re-adding cutoff^2 (mathematically, undeflated == deflated^2 + tail).
     undeflated = (
-        jnp.square(jnp.maximum(top_eigs, 0.0)) + axis_state.tail * decay
+        jnp.square(jnp.maximum(top_eigs, 0.0)) + axis_state.tail * tail_decay
     )
   eigvecs = u[:, :k]
 
